@@ -917,4 +917,38 @@ theorem finish_bytes (w : WCur) (msg : Bytes) (hw : WCur.written w = WCur.be 0 2
   | ub => simp [hu] at h
 
 
+/-- the encoder never writes outside its buffer and never panics (statement of `C11.writer_safe`) -/
+theorem writeQuery_safe (cap id : Nat) (qname : Bytes) (qtype qclass : Nat) (rd : Bool) (opt : Option (Nat × Nat)) :
+    (writeQuery cap id qname qtype qclass rd opt).safe ∧
+      ∀ buf n, writeQuery cap id qname qtype qclass rd opt = .ok (buf, n) → buf.size = cap ∧ 2 ≤ n ∧ n ≤ cap := by
+  unfold writeQuery
+  have hb := queryBody_good (WCur.new cap) id qname qtype qclass rd opt
+  have hnew : (WCur.new cap).buf.size = cap ∧ (WCur.new cap).pos = 0 := by simp [WCur.new]
+  cases hq : queryBody (WCur.new cap) id qname qtype qclass rd opt with
+  | err e => simp
+  | panic p => rw [hq] at hb; exact absurd hb.1.1 (by simp)
+  | ub => rw [hq] at hb; exact absurd hb.1.1 (by simp)
+  | ok w =>
+    have g := hb.1.2 w hq
+    have hp := hb.2 w hq
+    have hsz : w.buf.size = cap := by rw [g.2.1]; exact hnew.1
+    have hfit : w.pos ≤ cap := by rw [← hsz]; exact g.2.2 (by rw [hnew.2]; omega)
+    simp only
+    unfold finishQuery
+    have hp2 : ¬ (w.pos < 2) := by omega
+    simp only [hp2, if_false, WCur.u16be]
+    have g7 := wBe_good ({ w with pos := 0 } : WCur) ((w.pos - 2) % 65536) 2 (by omega)
+    cases h7 : ({ w with pos := 0 } : WCur).wBe ((w.pos - 2) % 65536) 2 with
+    | err e => simp
+    | panic p => rw [h7] at g7; exact absurd g7.1 (by simp)
+    | ub => rw [h7] at g7; exact absurd g7.1 (by simp)
+    | ok w7 =>
+      have b7 := g7.2 w7 h7
+      refine ⟨trivial, ?_⟩
+      intro buf n hbn
+      simp only [Res.ok.injEq, Prod.mk.injEq] at hbn
+      obtain ⟨rfl, rfl⟩ := hbn
+      exact ⟨by rw [b7.2.1]; exact hsz, by omega, hfit⟩
+
+
 end Rsdns.C11
